@@ -105,7 +105,8 @@ func openWorld(path string, c Cfg, lineage int64) (*world, error) {
 	w.snap = rt.NewSnapStore(st)
 	w.snap.OnUpdate = w.onUpdate
 	w.taskID = fmt.Sprintf("t%d", lineage)
-	w.namedT = fmt.Sprintf("T%d", lineage)
+	// the named topic is a proper prefix of the anonymous topic name "main:t<n>:alert2"
+	w.namedT = fmt.Sprintf("main:t%d", lineage)
 	w.anonT = fmt.Sprintf("main:%s:alert2", w.taskID)
 	ctxs.Store(w.anonT, w.ctx)
 	ctxs.Store(w.namedT, w.ctx)
